@@ -257,7 +257,10 @@ def one_history(ctx, i, terms, info):
     saved_time = dirnode_mod.time
     dirnode_mod.time = clock
     try:
-        for step in range(nops):
+        pending_add = None         # an add_file whose upload is still in flight
+        for step in range(nops + 1):
+            if step == nops and pending_add is None:
+                break
             clock.now += r.choice([0, 0, 1, 1, 7])
             now = clock.now
             before = [snapshot(dn) for dn in dirs]
@@ -265,6 +268,10 @@ def one_history(ctx, i, terms, info):
             dn = dirs[d]
             kind = r.choices(["set_node", "set_uri", "set_children", "set_nodes", "delete", "set_md", "move"],
                              [22, 8, 10, 10, 16, 12, 22])[0]
+            if pending_add is not None and (step == nops or r.random() < 0.45):
+                kind = "add_file"                      # the upload completes now: the link is made at this point of the history
+            elif pending_add is None and step < nops and r.random() < 0.14:
+                kind = "add_file_start"
             existing = sorted(before[d])
             def pick_name():
                 if existing and r.random() < 0.55:
@@ -275,7 +282,40 @@ def one_history(ctx, i, terms, info):
                 return r.choice(NAMES)
             ov = r.choice(OV)
             want = None
-            if kind in ("set_node", "set_uri"):
+            if kind == "add_file_start":
+                # add_file(name, uploadable, metadata, overwrite): the upload is held in flight while other edits land
+                from allmydata.immutable.upload import Data
+                namex = pick_name()
+                if existing and r.random() < 0.3:
+                    namex = r.choice(NAMES)
+                data = D.rb(r, r.choice([0, 5, 55, 56, 200]))
+                md = r.choice([None, D.gen_metadata(r, ascii_only=True)])
+                nm.uploader.hold = True
+                dfd = defer_call(lambda: dn.add_file(namex, Data(data, b""), metadata=md, overwrite=ov_value(ov)))
+                nm.uploader.hold = False
+                cap = nm.uploader.last_uri
+                tbl.add(D.Cap(cap, "imm", False, cap, label="uploaded"))
+                used.add(cap)
+                pending_add = (dfd, d, namex, md, ov, cap)
+                ctx.count("add_file:upload-held")
+                continue
+            if kind == "add_file":
+                dfd, d, namex, md, ov, cap = pending_add
+                pending_add = None
+                dn = dirs[d]
+                desc = [kind, d, namex, "uploaded-file", md, ov]
+                fired_before_release = []
+                dfd.addBoth(lambda x: (fired_before_release.append(1), x)[1])
+                early = bool(fired_before_release)
+                nm.uploader.release()
+                res = D.outcome(dfd)
+                ctx.count("add_file:" + ("refused-before-upload-finished" if early else "linked-or-refused-at-link-time"))
+                file_obs = ("file", None, cap, False, None)
+                want = ref.add(d, [(D.nfc(namex), file_obs, md)], ov, now)
+                coq_ops.append("(OAdd %d [(%s, %s, %s)] %s, JNum %s)" % (
+                    d, D.B(namex.encode("utf-8")), D.coq_cfc("cls", False, cap, None),
+                    T.opt(D.jobj(md) if md is not None else None), coq_ov(ov), T.Z(now)))
+            elif kind in ("set_node", "set_uri"):
                 namex, p = pick_name(), r.choice(pool)
                 used.update(x for x in p[:2] if x)
                 md = r.choice([None, D.gen_metadata(r, ascii_only=True)]) if r.random() < 0.8 else {"no-write": r.choice([True, 1, "y", False])}
@@ -372,7 +412,7 @@ def one_history(ctx, i, terms, info):
     if i < 2:
         ctx.sample({"ops": ops_desc[:6], "outcomes": outcomes[:6]})
     # ---- the map model, in Coq
-    if (nops <= 10 and i < ctx.n(60, 900)) or i % 9 == 0:
+    if (nops <= 10 and i < ctx.n(36, 900)) or i % 14 == 0:
         final = [snapshot(x) for x in dirs]
         norm = "(normalize_tbl [%s])" % "; ".join("(%s, %s)" % (D.B(n.encode("utf-8")), D.B(D.nfc(n).encode("utf-8")))
                                                  for n in NAMES if D.nfc(n) != n)
@@ -404,7 +444,7 @@ def judge(ctx, case, desc, kind, ov, got, want, before, after, ref, d, now):
             ctx.oracle_fail("edit-state-differs-from-map", "after %r the directories differ from the name map" % (desc,),
                             case=case, expected=D_jsonable(ref.dirs), observed=D_jsonable(after))
     # (2) a no-overwrite add never replaces an entry; only-files never replaces a directory
-    if kind in ("set_node", "set_uri", "set_children", "set_nodes", "move") and ov in ("false", "only-files"):
+    if kind in ("set_node", "set_uri", "set_children", "set_nodes", "move", "add_file") and ov in ("false", "only-files"):
         dst = desc[3] if kind == "move" else desc[1]
         for name, (obs, md) in before[dst].items():
             if kind == "move" and dst == desc[1] and name == D.nfc(desc[2]):
@@ -454,7 +494,7 @@ def D_jsonable(dirs):
 def run(ctx):
     ctx.correspondence("map-model-vs-directorynode-api")
     terms, info = [], []
-    for i in range(ctx.n(140, 1400)):
+    for i in range(ctx.n(120, 1400)):
         one_history(ctx, i, terms, info)
     bad = ctx.coq_check(IMPORTS, terms, preamble=PREAMBLE, tag="c20", shard=max(8, (len(terms) + 6) // 7))
     for ix in bad:
